@@ -62,7 +62,7 @@ structure Address where
   bus : BusCfg
   logical : Nat
   mapping : Mapping
-  deriving Repr
+  deriving Repr, Inhabited
 
 /-- `Address(bus, v)` / `Bus.get_address(v)`: `none` = `KeyError` (unmapped bank, or negative value). -/
 def Address.mk? (bus : BusCfg) (v : Int) : Option Address :=
